@@ -36,6 +36,25 @@ from . import SimCrash, HarnessError
 from . import rng as rngmod
 
 _COUNTER = [0]
+
+# Defects of the harness noticed by a shim while repo code was running.  The
+# repo code may swallow the exception (it has broad `except Exception`
+# handlers), so the shim also records it here; the engine re-raises the first
+# one after the op: a harness error (exit 2), never a property violation.
+PENDING_HARNESS_ERRORS = []
+
+
+def harness_error(message):
+    err = HarnessError(message)
+    PENDING_HARNESS_ERRORS.append(err)
+    return err
+
+
+def raise_pending_harness_error():
+    if PENDING_HARNESS_ERRORS:
+        err = PENDING_HARNESS_ERRORS[0]
+        del PENDING_HARNESS_ERRORS[:]
+        raise err
 _RANDOM_TMP = re.compile(r'^tmp[A-Za-z0-9_]{8}$')
 
 
@@ -266,7 +285,7 @@ class CountingTempfile:
                                                         suffix))
 
     def __getattr__(self, name):
-        raise HarnessError('unexpected tempfile.%s in module under test' %
+        raise harness_error('unexpected tempfile.%s in module under test' %
                            name)
 
 
